@@ -243,7 +243,7 @@ def cases(tier):
                                     continue
                                 for wrap in ((False, True) if N == 1 else (True,)):
                                     cs = make_case(name, N, meas, norm, icv, pcv, gridv, wrap)
-                                    cs['hist_len'] = 2 if tier == 'quick' else 3
+                                    cs['hist_len'] = 3 if (tier == 'thorough' or (N <= 2 and len(meas) <= 2)) else 2
                                     out.append(cs)
     return out
 
